@@ -23,6 +23,10 @@ COQ_IMPORTS = ("From Coq Require Import List ZArith Bool QArith Qcanon.\n"
                "From PV Require Import Base.Index Np.Array Model.Sparse Model.Repr Model.Harness Model.C18Cmp.\n")
 SHARD = 12          # quick tier: <= 16 shards = one round on 16 cores; ~1.3 s of library loading per shard
 TOL = Fraction(1, 10 ** 8)
+# per-sweep KKT violations (cp_apr) are a derived diagnostic max|min(m, 1 - sum x / (m . pi))|: entries of size 1e-8 (the value
+# PDNR / PQNR patch all-zero rows of the start with) turn the 1e-16 rounding of the model into 1e-8 in the diagnostic (wave 3b, seed 8:
+# models agree to 2e-11, KKT of sweep 1 differs by 1.4e-8). The property pins the MODEL (1e-8); the KKT trace is compared at 1e-6.
+TOL_KKT = Fraction(1, 10 ** 6)
 
 PAIRS = {
     "repr": ("cp_als", "cp_apr_mu", "cp_apr_pdnr", "cp_apr_pqnr", "tucker_als", "hosvd", "gcp"),
@@ -79,7 +83,7 @@ EXPLANATION = ("Each case is two real pyttb runs differing only in presentation;
                "tucker_als whose eigsh/ARPACK start vector is not driven by numpy's seed: returned start identical, model and fit at "
                "tolerance. cp_als / tucker_als fits are compared through q = (1-fit)^2 (the quantity under the code's square root; "
                "near an exact fit the root turns 1e-16 into 1e-8). cp_als final fit under printing is recomputed from innerprod "
-               "(A-43): rounding-level, compared at tolerance. cp_apr additionally: per-sweep KKT violations at tolerance.")
+               "(A-43): rounding-level, compared at tolerance. cp_apr additionally: per-sweep KKT violations at 1e-6 (a derived diagnostic that amplifies model rounding by the reciprocal of the smallest model entry, 1e-8 after PDNR / PQNR's zero-row patch).")
 ASSUMPTIONS = ["'up to rounding' is read as 1e-8 relative to the largest model entry on runs of <= 5 outer iterations over "
                "well-conditioned small integer data; long runs where rounding differences amplify are out of range"]
 
@@ -240,8 +244,11 @@ def base_run(rng, alg, shape=None, seeded=False, zero_slice=False, zero_init=Fal
         R = rank
     tr = tucker_ranks(rng, shape)
     need = tr if alg == "tucker_als" else [2] * N if alg == "hosvd" else [R] * N
-    rd["data"] = gen_data(rng, shape, signed, R=rng.choice([1, 2, 2]), zero_prob=rng.choice([0.0, 0.2, 0.4]), zero_slice=zero_slice,
-                          need=None if zero_slice else need)
+    for _ in range(50):
+        rd["data"] = gen_data(rng, shape, signed, R=rng.choice([1, 2, 2]), zero_prob=rng.choice([0.0, 0.2, 0.4]), zero_slice=zero_slice,
+                              need=None if zero_slice else need)
+        if alg != "tucker_als" or _gap_ok(shape, rd["data"], tr):
+            break
     if graded is not None:
         rd["data"] = gen_graded(rng, shape, graded)
         rd["graded"] = graded
@@ -334,11 +341,45 @@ def _mk(pair, alg, base, trans, c=1, perm=None, extra=None):
     return Case(f"{pair}.{alg}", args, _nontrivial(base, pair, perm))
 
 
+def _gap_ok(shape, data, ranks, rel=1e-2):
+    """Tucker-ALS keeps the r_n leading eigenvectors of mode-n Gram matrices: when the r_n-th and the (r_n+1)-th eigenvalue coincide
+    the kept subspace is arbitrary and eigsh / ARPACK (unseeded start vector) returns a different one on every call - two IDENTICAL
+    tucker_als calls then return different models of the same fit (wave 3b, seed 20: Gram spectrum 4, 2, 2, 0 with rank 2). Such data
+    are ill posed for every relation of C18; the generator asks for a relative gap at the cut of the data's own Gram matrices."""
+    import numpy as np
+    X = np.array(data, dtype=float).reshape(tuple(shape), order="F")
+    for n, d in enumerate(shape):
+        if ranks[n] >= d:
+            continue
+        Xn = np.moveaxis(X, n, 0).reshape((d, -1))
+        ev = sorted(np.linalg.eigvalsh(Xn @ Xn.T), reverse=True)
+        if (ev[ranks[n] - 1] - ev[ranks[n]]) / max(ev[0], 1e-300) < rel:
+            return False
+    return True
+
+
 def _nvecs_ok(b):
     """init='nvecs' asks every mode for `rank` leading eigenvectors of an I_n x I_n Gram matrix: admissible only for rank <= I_n
-    (cp_als(shape (3,1,4), rank 2, init='nvecs') gets a 1-column factor for the singleton mode and dies in the ktensor constructor)"""
+    (cp_als(shape (3,1,4), rank 2, init='nvecs') gets a 1-column factor for the singleton mode and dies in the ktensor constructor),
+    and well posed only when the `rank` leading eigenvalues are separated from each other and from the next one: eigenvectors of a
+    repeated eigenvalue are arbitrary in their eigenspace and eigsh / ARPACK picks them with its own unseeded start vector (wave 3b,
+    seed 11: a 4 x 3 matrix with Gram spectrum 25, 1, 1 gave a different 'nvecs' start on every call) - relative gap >= 1e-2"""
+    import numpy as np
     r = b["rank"]
-    return all(d >= (r[n] if isinstance(r, list) else r) for n, d in enumerate(b["shape"]))
+    shape = b["shape"]
+    if not all(d >= (r[n] if isinstance(r, list) else r) for n, d in enumerate(shape)):
+        return False
+    if b.get("sparse"):
+        return False
+    X = np.array(b["data"], dtype=float).reshape(tuple(shape), order="F")
+    for n, d in enumerate(shape):
+        rn = r[n] if isinstance(r, list) else r
+        Xn = np.moveaxis(X, n, 0).reshape((d, -1))
+        ev = sorted(np.linalg.eigvalsh(Xn @ Xn.T), reverse=True) + [0.0]
+        top = max(ev[0], 1e-300)
+        if any((ev[k] - ev[k + 1]) / top < 1e-2 for k in range(min(rn, d))):
+            return False
+    return True
 
 
 FAR_SCALES = [2.0 ** -24, 2.0 ** -17, 2.0 ** 24, 2.0 ** -20, 2.0 ** -30]
@@ -674,7 +715,7 @@ def coq_check(c, o):
             if not (U.finite(x) and U.finite(y)):
                 exprs.append("true" if x == y else "false")
             else:
-                exprs.append(f"qs_list_close tol8 {U.gqvec(y)} {U.gqvec(x)}")
+                exprs.append(f"qs_list_close tol6 {U.gqvec(y)} {U.gqvec(x)}")
     return "(" + " && ".join(exprs) + ")"
 
 
@@ -719,9 +760,9 @@ def oracle(c, o):
                 return f"{name}: lengths {len(x)} vs {len(y)}"
             if U.finite(x) and U.finite(y):
                 for u, v in zip(x, y):
-                    why = U.scalar_mismatch(v, u, TOL)
+                    why = U.scalar_mismatch(v, u, TOL_KKT)
                     if why:
-                        return f"{name} differ beyond 1e-8: {why}"
+                        return f"{name} differ beyond 1e-6: {why}"
             elif x != y:
                 return f"{name}: {x} vs {y}"
     return None
